@@ -174,6 +174,11 @@ BAITS = {
     "rust-imports": ("rs", [
         "use tokio::fs;", "use tokio::time::sleep;", "", "async fn load_{k}(p: &str) {{", "    let _a = fs::read_to_string(p).await;", "}}", ""], [
         "use std::fs;", "", "async fn load_{k}(p: &str) {{", "    let _a = fs::read_to_string(p);", "}}", ""]),
+    "ts-string-kinds": ("ts", [
+        "function render_{k}(items: number[]) {{", "  let acc = \"\";", "  let tally = \"\";", "  for (const it of items) {{", "    acc += String(it);", "    tally += \".\";", "  }}",
+        "  return acc + tally;", "}}", ""], [
+        "function total_{k}(items: number[]) {{", "  let acc = 0;", "  let tally = 0;", "  for (const it of items) {{", "    acc += it;", "    tally += 1;", "  }}",
+        "  return acc + tally;", "}}", ""]),
     "ts-consts": ("ts", [
         "const RETRIES = 7;", "const backoff_{k} = 1234;", "function wait_{k}(a: number) {{", "  return a + 4321;", "}}", ""], [
         "let RETRIES = 0;", "function wait_{k}(a: number) {{", "  RETRIES = a + 5678;", "  return RETRIES;", "}}", ""]),
